@@ -177,6 +177,9 @@ const variantPodPending = 10
 // variantPodStarting = Pending, PodScheduled=True: both InProgress and NOT unschedulable
 const variantPodGated = 11
 const variantPodStarting = 12
+
+// variantPodOtherCond = Pending; a condition OTHER than PodScheduled is False with reason Unschedulable
+const variantPodOtherCond = 13
 const slowAnnotation = "verif.c16/slow-status-read"
 
 // variantErr: like variant 0, but the status computation of this version FAILS
@@ -244,11 +247,14 @@ func buildObject(o oid, variant int) *unstructured.Unstructured {
 			cond("Ready", "True")
 		} else if variant == variantPodPending {
 			_ = unstructured.SetNestedField(u.Object, "Pending", "status", "phase")
-		} else if variant == variantPodGated || variant == variantPodStarting {
+		} else if variant == variantPodGated || variant == variantPodStarting || variant == variantPodOtherCond {
 			_ = unstructured.SetNestedField(u.Object, "Pending", "status", "phase")
 			c := map[string]interface{}{"type": "PodScheduled", "status": "False", "reason": "SchedulingGated", "message": "gated"}
 			if variant == variantPodStarting {
 				c = map[string]interface{}{"type": "PodScheduled", "status": "True"}
+			}
+			if variant == variantPodOtherCond {
+				c = map[string]interface{}{"type": "PodReadyToStartContainers", "status": "False", "reason": "Unschedulable"}
 			}
 			_ = unstructured.SetNestedSlice(u.Object, []interface{}{c}, "status", "conditions")
 		} else {
@@ -328,6 +334,9 @@ type dynMapper struct {
 	mu    sync.Mutex
 	truth map[int]bool // kinds the "API server" serves now
 	cache *meta.DefaultRESTMapper
+	// kinds whose RESTMapping lookup fails with an ordinary error (discovery is
+	// unreachable): not a NoMatch, so the informer cannot be started -> fatal
+	failKinds map[int]bool
 }
 
 func newDynMapper(truth map[int]bool) *dynMapper {
@@ -386,6 +395,11 @@ func (m *dynMapper) ResourcesFor(r schema.GroupVersionResource) ([]schema.GroupV
 	return m.cur().ResourcesFor(r)
 }
 func (m *dynMapper) RESTMapping(gk schema.GroupKind, versions ...string) (*meta.RESTMapping, error) {
+	for k, on := range m.failKinds {
+		if on && kinds[k].gvk.GroupKind() == gk {
+			return nil, fmt.Errorf("discovery of %s failed: connection refused", gk)
+		}
+	}
 	return m.cur().RESTMapping(gk, versions...)
 }
 func (m *dynMapper) RESTMappings(gk schema.GroupKind, versions ...string) ([]*meta.RESTMapping, error) {
@@ -476,6 +490,8 @@ type rscript struct {
 		variant int
 	}
 	forbid map[int]bool // kinds whose LIST is Forbidden
+	// kinds whose RESTMapping lookup fails with an ordinary error (not NoMatch)
+	mapperErr map[int]bool
 	steps  []rstep
 	// statuses the DELAYED re-check (status.ScheduleWindow after an unschedulable
 	// pod was seen) must report after the "tick" step, per object
@@ -719,6 +735,7 @@ func runReporterScript(sc *rscript) (obs *robs) {
 		}
 	}
 	mapper := newDynMapper(truth)
+	mapper.failKinds = sc.mapperErr
 
 	ids := object.ObjMetadataSet{}
 	for _, w := range sc.watched {
@@ -807,6 +824,9 @@ func runReporterScript(sc *rscript) (obs *robs) {
 		expectFail = expectFail || on
 	}
 	expectFail = expectFail || sc.preReadErrors() > 0
+	for _, on := range sc.mapperErr {
+		expectFail = expectFail || on
+	}
 	for _, s := range sc.steps {
 		if s.kind == "forbid" {
 			forbidMu.Lock()
@@ -1065,6 +1085,16 @@ func reporterCorpus() []*rscript {
 			&rscript{label: "read-error:listing", root: root, watched: []oid{sec(1, 1), cm(1, 1)},
 				pre:   []preObj{{sec(1, 2), variantErr}, {sec(1, 1), variantErr}},
 				steps: []rstep{{"add", cm(1, 1), 1}}},
+		)
+	}
+	// the RESTMapper cannot resolve a watched kind for a reason other than NoMatch
+	// (discovery unreachable): the informer cannot be built -> one error event, stop
+	for _, root := range []bool{true, false} {
+		l = append(l,
+			&rscript{label: "mapper-error:one", root: root, watched: []oid{cm(1, 1), sec(1, 1)}, mapperErr: map[int]bool{3: true},
+				steps: []rstep{{"add", cm(1, 1), 0}}},
+			&rscript{label: "mapper-error:several", root: root, watched: []oid{cm(1, 1), sec(1, 1), sec(2, 1), {5, 0, 1}, wid(1, 1)},
+				mapperErr: map[int]bool{3: true, 5: true, kWidget: true}, steps: []rstep{{"add", sec(1, 1), 0}}},
 		)
 	}
 	for _, root := range []bool{true, false} {
@@ -1443,10 +1473,11 @@ func unschedulableScripts(tier string) []*rscript {
 				// and neither does a pod that is Pending without an Unschedulable condition -- Pod c)
 				// nor one whose PodScheduled condition is False for another reason (Pod d) or True (Pod e)
 				&rscript{label: "unschedulable:stays", root: root,
-					watched: []oid{pod, {3, 1, 1}, {3, 1, 2}, {kPod, 1, 3}, {kPod, 1, 4}, {kPod, 1, 5}},
+					watched: []oid{pod, {3, 1, 1}, {3, 1, 2}, {kPod, 1, 3}, {kPod, 1, 4}, {kPod, 1, 5}, {kPod, 1, 6}},
 					steps: []rstep{{"add", pod, variantUnsched}, {"add", other, variantUnsched}, {"add", oid{3, 1, 1}, 0},
 						{"add", oid{3, 1, 2}, 4}, {"add", oid{kPod, 1, 3}, variantPodPending},
-						{"add", oid{kPod, 1, 4}, variantPodGated}, {"add", oid{kPod, 1, 5}, variantPodStarting}, tick},
+						{"add", oid{kPod, 1, 4}, variantPodGated}, {"add", oid{kPod, 1, 5}, variantPodStarting},
+						{"add", oid{kPod, 1, 6}, variantPodOtherCond}, tick},
 					late: map[oid][]string{pod: {"SFailed"}}},
 				&rscript{label: "unschedulable:scheduled-in-time", root: root, watched: []oid{pod},
 					steps: []rstep{{"add", pod, variantUnsched}, {"update", pod, variantPodReady}, tick}},
@@ -1515,7 +1546,7 @@ func (sc *rscript) caseTerm(o *robs) (string, string) {
 		}
 		if !seenT[t] {
 			seenT[t] = true
-			if sc.forbid[w.gk] {
+			if sc.forbid[w.gk] || sc.mapperErr[w.gk] {
 				nFail++
 			}
 		}
@@ -1589,6 +1620,11 @@ func (sc *rscript) caseTerm(o *robs) (string, string) {
 	for k, on := range sc.forbid {
 		if on {
 			ftxt = append(ftxt, kinds[k].gvk.Kind)
+		}
+	}
+	for k, on := range sc.mapperErr {
+		if on {
+			ftxt = append(ftxt, "(RESTMapping fails: "+kinds[k].gvk.Kind+")")
 		}
 	}
 	sort.Strings(ftxt)
